@@ -77,9 +77,9 @@ Fixpoint jdiff (a b : json) : option string :=
   | _, _ => Some ": kind"%string
   end.
 
-(* validator verdict + generator-model comparison (model vs implementation) for one request *)
+(* validator verdicts (tolerant Spec, exact shape) + generator-model comparison (model vs implementation) *)
 Definition check_case (o : obs) (resp : json) : string :=
-  ("V:" ++ bs (response_ok o resp) ++ ";" ++
+  ("V:" ++ bs (response_ok o resp) ++ ";X:" ++ bs (response_exact o resp) ++ ";" ++
    match pathresult o with
    | Ok j => match jdiff j resp with None => "G:T" | Some d => "G:F:" ++ d end
    | Err e => "G:E:" ++ e
